@@ -486,6 +486,9 @@ class Analysis(object):
             if e.get('op') == '+':
                 return self.lin(e['e'], o)
             return None
+        if k == 'bin' and e.get('op') == '=' and is_var(e.get('l')):
+            # the value of an assignment expression is the variable just assigned (its store event came first)
+            return self.lin(e['l'], o, strict)
         if k == 'bin' and e.get('op') in ('+', '-'):
             a, b = self.lin(e['l'], o), self.lin(e['r'], o)
             if a is None or b is None:
